@@ -4,10 +4,11 @@
    parser.parse (C01_document), several grids per document (C01_multi_grid); date-times per kind (C01_datetime) and as
    cells of whole grids in two-sided form (C01_full_grid_with_datetimes); version 2.0 grids without and with metadata
    (C01_grid_2_0, C01_grid_2_0_with_metadata).  Each kind goes through the reader's WHOLE scalar alternation.
-   Date-times anywhere - inside lists and dicts, as metadata values, as cells - are C01_full_grid_two_sided.
-   Version 2.0 grids with date-time cells are C01_grid_2_0_with_datetimes.
-   PARTIAL: date-times inside NESTED GRIDS and in 2.0 metadata, and what a date-time text denotes (iso8601 / pytz),
-   are covered by the model-implementation tie and the search (harness/props/c01.py). *)
+   Date-times anywhere - inside lists, dicts and nested grids, as metadata values, as cells - are
+   C01_full_grid_two_sided.
+   Version 2.0 grids with date-time cells and metadata values are C01_grid_2_0_with_datetimes / C01_grid_2_0_two_sided.
+   PARTIAL: what a date-time text denotes (iso8601 / pytz) is the oracle of the model-implementation tie and of the
+   search (harness/props/c01.py); number texts are CPython tokens. *)
 From Coq Require Import String.
 From Coq Require Import List NArith Bool.
 From HS Require Import Base.Prelude Model.Value Model.Escape Model.Version Model.Json Model.ZincDump Model.ZincParse.
@@ -353,8 +354,8 @@ Qed.
 
 (* DATE-TIMES ANYWHERE: inside lists and dicts to any depth, as grid and column metadata values, as cells.  wrv n w r t:
    w is written as t and t is read as r - every value of the general theorem with r = w (zv), a date-time in a named
-   zone with r its raw ISO text and zone name, lists and dicts of such triples; metadata items are markers or such
-   triples.  The written grid (the w side) is dumped to a text which parse_grid reads as the r side. *)
+   zone with r its raw ISO text and zone name, lists, dicts and NESTED GRIDS (with metadata) of such triples; metadata
+   items are markers or such triples.  The written grid (the w side) is dumped to a text which parse_grid reads as the r side. *)
 Theorem C01_full_grid_two_sided : forall n (mq : list q4) (cs : list cq) (rows : list (list (hval * hval))) rts,
   Forall (mq_ok n) mq -> NoDup (map k4 mq) -> ~ In VERK (map k4 mq) ->
   cs <> [] -> Forall (cq_ok n) cs -> NoDup (map fst cs) ->
@@ -367,6 +368,17 @@ Proof. exact full_grid_two_sided. Qed.
 Theorem C01_two_sided_values : forall n w r t, wrv n w r t ->
   (forall f, zdump (S (2 * n + f)) false w = Ok t) /\ (forall k, readsd (2 * n + k) r t) /\ cellwr n (w, r) t.
 Proof. intros n w r t H. destruct (wrv_sem n w r t H) as [D R]. split; [exact D|]. split; [exact R|apply wrv_cellwr; exact H]. Qed.
+(* the relation, one level: the same value of the general theorem, a date-time, a list, a dict or a nested grid of triples *)
+Theorem C01_two_sided_relation : forall n w r t,
+  wrv (S n) w r t <->
+  ((w = r /\ zv (S n) w t) \/ dtt w r t
+   \/ (exists l : list (hval * hval * str), w = VList (map w3 l) /\ r = VList (map r3 l) /\
+         t = (91 :: join [44] (map t3 l) ++ [93])%list /\ Forall (fun x => wrv n (w3 x) (r3 x) (t3 x)) l)
+   \/ (exists l : list q4, w = VDict (map pkv (map pw l)) /\ r = VDict (map pkv (map pr l)) /\
+         t = (123 :: body_text (map pw l) ++ [125])%list /\ NoDup (map k4 l) /\
+         Forall (fun x => colname (k4 x) /\ wrv n (w4 x) (r4 x) (t4 x)) l)
+   \/ grid2_of (wrv n) w r t).
+Proof. intros. reflexivity. Qed.
 Example C01_two_sided_nonvacuous :
   wrv 1 (VList [VDateTime 2020 2 29 23 59 59 0 19800 (ZName (s_ "Kolkata")); VNull])
         (VList [VDateTimeRaw (s_ "2020-02-29T23:59:59+05:30") (Some (s_ "Kolkata")); VNull])
@@ -381,6 +393,24 @@ Proof.
     split; [vm_compute; reflexivity|]. split; [repeat split; try reflexivity; try (left; reflexivity); vm_compute; try discriminate; try reflexivity|].
     split; [right; cbn; repeat split; try reflexivity; try discriminate; repeat constructor|]. split; [reflexivity|]. split; reflexivity.
   - left. split; [reflexivity|]. exact leafd_null.
+Qed.
+
+Example C01_two_sided_nested_grid_nonvacuous :
+  let dt := VDateTime 2020 2 29 23 59 59 0 19800 (ZName (s_ "Kolkata")) in
+  let raw := VDateTimeRaw (s_ "2020-02-29T23:59:59+05:30") (Some (s_ "Kolkata")) in
+  wrv 1 (meta_grid [] [(s_ "a", [])] [[dt]]) (meta_grid [] [(s_ "a", [])] [[raw]])
+        (60 :: 60 :: meta_text [] [(s_ "a", [])] [[s_ "2020-02-29T23:59:59+05:30 Kolkata"]] ++ [62; 62]).
+Proof.
+  intros dt raw. right. right. right. right.
+  exists [], [(s_ "a", [])], [[(dt, raw, s_ "2020-02-29T23:59:59+05:30 Kolkata")]].
+  split; [reflexivity|]. split; [reflexivity|]. split; [reflexivity|].
+  split; [constructor|]. split; [constructor|]. split; [intros []|]. split; [discriminate|].
+  split; [constructor; [|constructor]; split; [cn|split; constructor]|].
+  split; [repeat constructor; intros []|].
+  constructor; [|constructor]. split; [reflexivity|]. constructor; [|constructor].
+  right. exists 2020, 2, 29, 23, 59, 59, 0, 19800%Z, (s_ "Kolkata"), 43, 5, 30.
+  split; [vm_compute; reflexivity|]. split; [repeat split; try reflexivity; try (left; reflexivity); vm_compute; try discriminate; try reflexivity|].
+  split; [right; cbn; repeat split; try reflexivity; try discriminate; repeat constructor|]. split; [reflexivity|]. split; reflexivity.
 Qed.
 
 (* VERSION 2.0 WITH DATE-TIME CELLS (date-times are a 2.0 kind): two-sided as above, metadata over the 2.0 values *)
@@ -398,6 +428,16 @@ Theorem C01_cells_2_0_two_sided :
      cellwr20 (VDateTime y m d h mi s us off (ZName zn), VDateTimeRaw (iso_datetime y m d h mi s us off) (Some zn))
               (iso_datetime y m d h mi s us off ++ 32 :: zn)).
 Proof. split; [exact cellwr20_same|exact cellwr20_datetime]. Qed.
+
+(* ... and with date-times among the 2.0 grid and column metadata values as well *)
+Theorem C01_grid_2_0_two_sided : forall (mq : list q4) (cs : list cq) (rows : list (list (hval * hval))) rts,
+  Forall mq2_ok mq -> NoDup (map k4 mq) -> ~ In VERK (map k4 mq) ->
+  cs <> [] -> Forall cq2_ok cs -> NoDup (map fst cs) ->
+  Forall2 (fun cells ts => length cells = length (map fst cs) /\ Forall2 cellwr20 cells ts) rows rts ->
+  (forall f, zdump_grid (S (S f)) V20 (map pkv (map pw mq)) (map (fun c => (fst c, map pkv (snd c))) (map colw cs))
+                        (map (fun cells => combine (map fst cs) (map fst cells)) rows) = Ok (meta_text2 (map pw mq) (map colw cs) rts)) /\
+  zparse_grid (meta_text2 (map pw mq) (map colw cs) rts) = Ok (meta_grid2 (map pr mq) (map colr cs) (map (map snd) rows)).
+Proof. exact grid2_two_sided_meta. Qed.
 
 (* SEVERAL GRIDS IN ONE DOCUMENT: the writer joins the grid texts with a line feed, so that an empty line separates them;
    parser.parse cuts the text there again and reads the grids in order.  For grid texts that are non-empty lines ended by
@@ -598,8 +638,10 @@ Print Assumptions C01_full_grid_with_datetimes.
 Print Assumptions C01_datetime_cells.
 Print Assumptions C01_full_grid_two_sided.
 Print Assumptions C01_two_sided_values.
+Print Assumptions C01_two_sided_relation.
 Print Assumptions C01_grid_2_0_with_datetimes.
 Print Assumptions C01_cells_2_0_two_sided.
+Print Assumptions C01_grid_2_0_two_sided.
 Print Assumptions C01_grid_2_0_with_metadata.
 Print Assumptions C01_metadata_values_2_0.
 Print Assumptions C01_multi_grid.
